@@ -159,8 +159,8 @@ def check_formatters(R, rule):
     fs = tb.body('tonic_build::format_service_name')
     R.saw(fm, fs)
     rt = mirlib.returned_terms(fm)
-    tpl, args = fmt_of(fm, rt[0][1]) if rt else (None, [])
-    R.eq(tpl, ['/', '{}', '/', '{}'], rule, 'method-path-template', site(fm), 'format_method_path template')
+    tpl, args = recipe_template(string_recipe(fm, rt[0][1])) if rt else (None, [])
+    R.eq(tpl, '/{}/{}', rule, 'method-path-template', site(fm), 'format_method_path: literal pieces around the arguments (format!, concat or push_str spelling)')
     ok_a = len(args) == 2 and term_contains(args[0], lambda x: is_call(x, name='format_service_name') and show(strip_refs(x[2][0])).startswith('arg1') and show(x[2][1]).startswith('arg3')) and term_contains(args[1], lambda x: is_call(x, name='identifier') and show(strip_refs(x[2][0])).startswith('arg2'))
     R.check(ok_a, rule, 'method-path-args', site(fm), 'arguments = [format_service_name(service, emit_package), method.identifier()]: %s' % [show(a)[:70] for a in args])
     # format_service_name by feasible path: package empty -> "<identifier>", otherwise "<package>.<identifier>"
@@ -176,22 +176,17 @@ def check_formatters(R, rule):
         val = mirlib.simplify(fs.ret_on_path(path))
         fs._path = {bb_: i_ for i_, bb_ in enumerate(path)}
         try:
-            tpl, args = fmt_of(fs, val)
+            rec = string_recipe(fs, val)
         finally:
             fs._path = None
-        if tpl is not None:
+        if rec is not None:
             pieces = []
-            ai = 0
-            for piece in tpl:
-                if piece == '{}':
-                    a_ = args[ai] if ai < len(args) else ('x',)
-                    ai += 1
-                    cv = const_val(strip_refs(a_))
-                    pieces.append('P' if is_pkg(a_) else ('I' if is_id(a_) else (cv if isinstance(cv, str) else '?:' + show(a_)[:30])))
-                else:
+            for piece in rec:
+                if isinstance(piece, str):
                     pieces.append(piece)
-        elif is_id(val) and is_call(strip_refs(val)) and strip_refs(val)[3] in ('to_owned', 'to_string', 'into', 'from', 'clone', 'to_str'):
-            pieces = ['I']
+                else:
+                    a_ = piece[1]
+                    pieces.append('P' if is_pkg(a_) else ('I' if is_id(a_) else '?:' + show(a_)[:30]))
         else:
             pieces = ['?:' + show(val)[:40]]
         rendered_empty = [x for x in pieces if x not in ('P', '')]
